@@ -171,6 +171,9 @@ func (se *specEnv) ident(x *ast.Ident) tv {
 		if se.v.ghostSorts[x.Name] == "Bool" {
 			return tv{term: g, typ: boolT}
 		}
+		if se.v.ghostSorts[x.Name] == "(Array Int Int)" {
+			return tv{term: g, typ: types.NewArray(intT, 0)}
+		}
 		return tv{term: g, typ: intT}
 	}
 	if t, ok := se.lookupLocal(x.Name); ok {
@@ -757,6 +760,10 @@ func (se *specEnv) call(x *ast.CallExpr) tv {
 	case "off":
 		a := se.eval(x.Args[0])
 		return tv{term: fmt.Sprintf("(s_off %s)", a.term), typ: intT}
+	case "is_elem_of":
+		// is_elem_of(p, s): pointer p points at an element of the slice of structs s
+		p, s := se.eval(x.Args[0]), se.eval(x.Args[1])
+		return tv{term: fmt.Sprintf("(and (< %s 0) (= (elem_arr %s) (s_arr %s)) (<= (s_off %s) (elem_idx %s)) (< (elem_idx %s) (+ (s_off %s) (s_len %s))))", p.term, p.term, s.term, s.term, p.term, p.term, s.term, s.term), typ: boolT}
 	case "row":
 		// row(s): the backing array of slice s as an SMT array (for uninterpreted spec functions)
 		a := se.eval(x.Args[0])
